@@ -863,11 +863,12 @@ def norm_type(t):
 
 
 def option_inner(ty):
-    """mirror of deb822-derive `is_option`: the last path segment is `Option`"""
-    m = re.fullmatch(r"((?:\w+::)*)Option<(.*)>", ty)
+    """mirror of deb822-derive `is_option`: the last path segment is `Option` (a leading `::` —
+    `::std::option::Option<T>` — is part of the path, not a segment)"""
+    m = re.fullmatch(r"(?:::)?((?:\w+::)*)Option<(.*)>", ty)
     if m:
         return True, m.group(2)
-    if re.fullmatch(r"((?:\w+::)*)Option", ty):
+    if re.fullmatch(r"(?:::)?((?:\w+::)*)Option", ty):
         fail(f"bare Option type: {ty}")
     return False, ty
 
